@@ -147,8 +147,11 @@ static inline void ubits_put(struct ubits *s, uint8_t nb, uint32_t value)
         return;
     }
 
-    s->bits <<= s->available;
-    s->bits |= value >> (nb - s->available);
+    if (likely(s->available < 32)) {
+        s->bits <<= s->available;
+        s->bits |= value >> (nb - s->available);
+    } else
+        s->bits = value;
     *s->buffer++ = s->bits >> 24;
     *s->buffer++ = (s->bits & 0xffffff) >> 16;
     *s->buffer++ = (s->bits & 0xffff) >> 8;
